@@ -1,6 +1,8 @@
 package props
 
 import (
+	"strings"
+
 	"npverif/internal/core"
 	"npverif/internal/rules"
 )
@@ -16,6 +18,33 @@ func init() {
 			"NOT decided: the answers themselves, correctness of deleteWorkload's substring matching, lru eviction, verdict changes through pod fields outside the cache key."
 		rules.CacheInvalidation(p, r)
 		rules.SortedTypestate(p, r)
+		// (E2) nil rules restricted to the functions reachable from DeleteObject ("deleting an absent object is a no-op, not a crash")
+		if del := p.Func(core.PkgEval, "PolicyEngine", "DeleteObject"); del != nil {
+			reach := p.Reachable(del.Obj)
+			keys := map[string]bool{}
+			for _, fd := range p.Funcs {
+				if reach[fd.Obj] {
+					keys[fd.Key()] = true
+				}
+			}
+			sub := core.NewReport("C15")
+			rules.NilGuards(p, sub)
+			n := 0
+			for _, o := range sub.Obs {
+				fn := o.Construct
+				if i := strings.Index(fn, ": "); i >= 0 {
+					fn = fn[:i]
+				}
+				if keys[fn] {
+					r.Add("C15-del/"+o.Rule, o.Construct, o.Pos, o.Status, o.Reason, o.Path...)
+					n++
+				}
+			}
+			r.RuleCounts["C15-del"] = n
+			r.Floor("C15-del", 3)
+		} else {
+			r.Lost("C15-del", "(*PolicyEngine).DeleteObject")
+		}
 		rules.CacheWriteDiscipline(p, r, "C15-d-store")
 		rules.CacheKeyShape(p, r, "C15-d-key")
 		r.Floor("E4a", 8)
